@@ -1,5 +1,7 @@
 package main
 
+import "go/ast"
+
 // Gen/Seal.v — synchronisation skeleton of SecretStore.SealEnvelope and the datastore
 // accesses (through helper calls) that lie between the lock and the return; the same for
 // getOwnDeviceChainKeyForGroup (first use of a group: look-up and creation of the own chain key).
@@ -13,6 +15,43 @@ func init() {
 		// first use: the own chain key is looked up and, if missing, created under ONE write lock
 		body += "Definition skel_own_chain_key : list string := " + coqStrList(skeletonWithCalls(funcDecl(f, "secretStore", "getOwnDeviceChainKeyForGroup"),
 			[]string{"getDeviceChainKeyForGroupAndDevice", "newDeviceChainKey", "registerChainKey"})) + ".\n"
+		// which branch of registerChainKey a PUBLISHED announcement takes: the expression that decides "this is my own chain
+		// key, store it as it is" in RegisterChainKey, and the call that passes it on; and the callers of registerChainKey
+		ownFlag, passOn := "", ""
+		if fd := funcDecl(f, "secretStore", "RegisterChainKey"); fd != nil && fd.Body != nil {
+			ast.Inspect(fd.Body, func(n ast.Node) bool {
+				switch x := n.(type) {
+				case *ast.AssignStmt:
+					if len(x.Lhs) == 1 && len(x.Rhs) == 1 && exprString(x.Lhs[0]) == "hasSecretBeenSentByCurrentDevice" {
+						ownFlag = exprString(x.Rhs[0])
+					}
+				case *ast.CallExpr:
+					if exprString(x.Fun) == "s.registerChainKey" && len(x.Args) > 0 {
+						passOn = exprString(x.Args[len(x.Args)-1])
+					}
+				}
+				return true
+			})
+		}
+		var callers []string
+		if f != nil {
+			for _, d := range f.f.Decls {
+				fd, ok := d.(*ast.FuncDecl)
+				if !ok || fd.Body == nil {
+					continue
+				}
+				ast.Inspect(fd.Body, func(n ast.Node) bool {
+					if c, ok := n.(*ast.CallExpr); ok && exprString(c.Fun) == "s.registerChainKey" && len(c.Args) > 0 {
+						callers = append(callers, fd.Name.Name+": "+exprString(c.Args[len(c.Args)-1]))
+					}
+					return true
+				})
+			}
+		}
+		body += "\n(* RegisterChainKey (an announcement read from the metadata log): what decides the store-as-it-is branch of\n   registerChainKey, the last argument of its call, and every caller of registerChainKey with that argument *)\n"
+		body += "Definition register_public_own_test : string := " + coqStr(ownFlag) + ".\n"
+		body += "Definition register_public_passes : string := " + coqStr(passOn) + ".\n"
+		body += "Definition register_chain_key_callers : list string := " + coqStrList(callers) + ".\n"
 		write("Seal.v", body)
 	})
 }
